@@ -63,14 +63,22 @@ VARIABLES idx,    \* scenario index
           cur,    \* the run being advanced and why
           hist,   \* API operations performed, each with the predicted observation
           fuel,   \* micro steps used
-          halted  \* the scenario was cut (unspecified input, fuel)
-vars == <<idx, pc, engs, runs, cur, hist, fuel, halted>>
+          halted, \* the scenario was cut (unspecified input, fuel)
+          tpc     \* "threads" scenarios: position of every thread in its own operation sequence
+vars == <<idx, pc, engs, runs, cur, hist, fuel, halted, tpc>>
 
 Scn == Scns[idx]
 Steps == Scn.steps
+\* A scenario may instead of `steps` (a sequence of alternatives) give `threads`: several
+\* operation sequences whose steps TLC interleaves in every possible way (C04).
+Threaded == "threads" \in DOMAIN Scn
+Threads == IF Threaded THEN Scn.threads ELSE <<>>
 
 InitEng == [db |-> <<>>, nf |-> 1, defs |-> <<>>, vari |-> <<>>, ncalls |-> <<>>]
-NoCur == [r |-> 0, mode |-> "", left |-> 0, acc |-> <<>>, op |-> <<>>]
+NoCur == [r |-> 0, mode |-> "", left |-> 0, acc |-> <<>>, op |-> <<>>, t |-> 0]
+\* move on in the scenario after an API operation of thread t (t = 0: the `steps` sequence)
+Advance(t) == IF t = 0 THEN pc' = pc + 1 /\ tpc' = tpc
+              ELSE pc' = pc /\ tpc' = [tpc EXCEPT ![t] = @ + 1]
 
 ----------------------------------------------------------------------------
 (***************************************************************************)
@@ -354,7 +362,7 @@ AssertInto(g, op) ==
 Ok == [k |-> "ok"]
 
 \* immediate API operations
-Imm(op) ==
+Imm(op, t) ==
   /\ op.op \in {"load", "loadfail", "register", "assert", "clear", "query", "close"}
   /\ LET es == CASE op.op = "load" -> [engs EXCEPT ![op.e] = LoadInto(@, ScriptDefs(op.script), op.ow)]
                  [] op.op = "register" -> [engs EXCEPT ![op.e] = RegisterInto(@, op)]
@@ -366,28 +374,40 @@ Imm(op) ==
                  [] OTHER -> runs IN
      /\ engs' = es /\ runs' = rs
      /\ hist' = Rec(op, Ok, es, rs)
-     /\ cur' = NoCur /\ pc' = pc + 1 /\ UNCHANGED <<fuel, halted>>
+     /\ cur' = NoCur /\ Advance(t) /\ UNCHANGED <<fuel, halted>>
 
 \* next / solve start advancing a run
-Start(op) ==
+Start(op, t) ==
   /\ op.op \in {"next", "solve"}
   /\ LET rs == IF op.op = "solve" THEN Put(runs, op.r, NewRun(op.e, op.goal, op.qnv)) ELSE runs
          run == rs[op.r] IN
      /\ runs' = [rs EXCEPT ![op.r].status = IF run.status = "fresh" THEN "run" ELSE "back"]
-     /\ cur' = [r |-> op.r, mode |-> op.op, left |-> IF op.op = "solve" THEN op.k ELSE 0, acc |-> <<>>, op |-> op]
-  /\ UNCHANGED <<engs, hist, fuel, halted, pc>>
+     /\ cur' = [r |-> op.r, mode |-> op.op, left |-> IF op.op = "solve" THEN op.k ELSE 0, acc |-> <<>>, op |-> op, t |-> t]
+  /\ UNCHANGED <<engs, hist, fuel, halted, pc, tpc>>
 
 Take ==
-  /\ cur.r = 0 /\ ~halted /\ pc <= Len(Steps)
+  /\ cur.r = 0 /\ ~halted /\ ~Threaded /\ pc <= Len(Steps)
   /\ \E i \in DOMAIN Steps[pc] :
-        LET op == Steps[pc][i] IN OpEnabled(op) /\ (Imm(op) \/ Start(op))
+        LET op == Steps[pc][i] IN OpEnabled(op) /\ (Imm(op, 0) \/ Start(op, 0))
   /\ UNCHANGED idx
 
 Skip ==
-  /\ cur.r = 0 /\ ~halted /\ pc <= Len(Steps)
+  /\ cur.r = 0 /\ ~halted /\ ~Threaded /\ pc <= Len(Steps)
   /\ \A i \in DOMAIN Steps[pc] : ~OpEnabled(Steps[pc][i])
   /\ pc' = pc + 1
-  /\ UNCHANGED <<idx, engs, runs, cur, hist, fuel, halted>>
+  /\ UNCHANGED <<idx, engs, runs, cur, hist, fuel, halted, tpc>>
+
+\* threads: any thread may perform its next operation (an operation that is not enabled,
+\* e.g. next on a run that has ended, is skipped)
+TakeT ==
+  /\ cur.r = 0 /\ ~halted /\ Threaded
+  /\ \E t \in DOMAIN Threads :
+        /\ tpc[t] <= Len(Threads[t])
+        /\ LET op == Threads[t][tpc[t]] IN
+           IF OpEnabled(op) THEN (Imm(op, t) \/ Start(op, t))
+           ELSE /\ tpc' = [tpc EXCEPT ![t] = @ + 1]
+                /\ UNCHANGED <<pc, engs, runs, cur, hist, fuel, halted>>
+  /\ UNCHANGED idx
 
 Config(r) == LET run == runs[r] g == engs[run.e] IN
   run @@ [db |-> g.db, nf |-> g.nf, defs |-> g.defs, vari |-> g.vari, ncalls |-> g.ncalls]
@@ -412,7 +432,7 @@ Micro ==
      THEN \* out of fuel: the scenario is cut here; the driver does not execute this call
           /\ hist' = Rec(cur.op, [k |-> "budget", answers |-> cur.acc], engs, runs)
           /\ halted' = TRUE
-          /\ UNCHANGED <<pc, engs, runs, cur, fuel>>
+          /\ UNCHANGED <<pc, engs, runs, cur, fuel, tpc>>
      ELSE
      LET c == IF c0.status = "back" THEN Backtrack([c0 EXCEPT !.status = "run"])
               ELSE StepF(c0) IN
@@ -420,7 +440,7 @@ Micro ==
      THEN /\ runs' = [runs EXCEPT ![r] = RunOf(c)]
           /\ engs' = [engs EXCEPT ![e] = EngOf(c, @)]
           /\ fuel' = fuel + 1
-          /\ UNCHANGED <<pc, cur, hist, halted>>
+          /\ UNCHANGED <<pc, cur, hist, halted, tpc>>
      ELSE
      LET es == [engs EXCEPT ![e] = EngOf(c, @)] IN
      /\ engs' = es
@@ -432,16 +452,16 @@ Micro ==
              THEN LET rs == [runs EXCEPT ![r] = RunOf(c1)] IN
                   /\ runs' = rs
                   /\ hist' = Rec(cur.op, [k |-> "answer", ans |-> ans, py |-> PyOf(ans), nlog |-> c.nlog], es, rs)
-                  /\ cur' = NoCur /\ pc' = pc + 1 /\ UNCHANGED halted
+                  /\ cur' = NoCur /\ Advance(cur.t) /\ UNCHANGED halted
              ELSE \* solve: collect; after the k-th answer the query is closed
                   IF cur.left = 1
                   THEN LET rs == [runs EXCEPT ![r] = RunOf(Stop(c1, "closed"))] IN
                        /\ runs' = rs
                        /\ hist' = Rec(cur.op, SolveObs(Append(cur.acc, ans), "closed", c.nlog), es, rs)
-                       /\ cur' = NoCur /\ pc' = pc + 1 /\ UNCHANGED halted
+                       /\ cur' = NoCur /\ Advance(cur.t) /\ UNCHANGED halted
                   ELSE /\ runs' = [runs EXCEPT ![r] = RunOf([c1 EXCEPT !.status = "back"])]
                        /\ cur' = [cur EXCEPT !.acc = Append(@, ans), !.left = IF @ = 0 THEN 0 ELSE @ - 1]
-                       /\ UNCHANGED <<pc, hist, halted>>
+                       /\ UNCHANGED <<pc, hist, halted, tpc>>
         ELSE \* done | raised | cyclic | unspec
              LET rs == [runs EXCEPT ![r] = RunOf(c)]
                  obs == IF cur.mode = "next"
@@ -449,7 +469,7 @@ Micro ==
                         ELSE SolveObs(cur.acc, IF c.status = "done" THEN "stop" ELSE c.status, c.nlog) IN
              /\ runs' = rs
              /\ hist' = Rec(cur.op, obs, es, rs)
-             /\ cur' = NoCur /\ pc' = pc + 1
+             /\ cur' = NoCur /\ Advance(cur.t)
              /\ halted' = (c.status \in {"cyclic", "unspec"})
 
 Init == /\ idx \in 1..Len(Scns)
@@ -460,11 +480,13 @@ Init == /\ idx \in 1..Len(Scns)
         /\ hist = <<>>
         /\ fuel = 0
         /\ halted = FALSE
+        /\ tpc = [t \in DOMAIN Threads |-> 1]
 
-Next == Take \/ Skip \/ Micro
+Next == Take \/ Skip \/ TakeT \/ Micro
 Spec == Init /\ [][Next]_vars
 
-Finished == halted \/ (cur.r = 0 /\ pc > Len(Steps))
+AllDone == IF Threaded THEN \A t \in DOMAIN Threads : tpc[t] > Len(Threads[t]) ELSE pc > Len(Steps)
+Finished == halted \/ (cur.r = 0 /\ AllDone)
 
 ----------------------------------------------------------------------------
 (* Emission of completed behaviours for the replay driver *)
@@ -512,7 +534,7 @@ SnapshotsOK ==
 \* semantics of Control.tla, or taken from the textbook corpus), the machine's answers to
 \* the designated solve step are exactly those, in order
 AnswersAreSLD ==
-  (~halted /\ cur.r = 0 /\ pc > Len(Steps) /\ "sem" \in DOMAIN Scn) =>
+  (~halted /\ cur.r = 0 /\ AllDone /\ "sem" \in DOMAIN Scn) =>
      \A i \in DOMAIN Scn.sem :
         LET h == hist[Scn.sem[i].step] IN
         /\ h.obs.k = "solve"
